@@ -12,7 +12,7 @@ func clearlyBelow(a, b int64) bool { return a*65536 < b*65535 }
 func clearlyAbove(a, b int64) bool { return a*65535 > b*65536 }
 
 // VerifHarness_C06: direction and taint rate follow the utilisation bands.
-// shape: [nodes, pods, class menu, cordon symbolic(0/1), triggers (0 none, 1 scale_on_starve, 2 max_node_age), memory-bound (0/1), prior uneventful scan (0/1)]
+// shape: [nodes, pods, class menu, cordon symbolic(0/1), triggers (0 none, 1 scale_on_starve, 2 max_node_age), memory-bound (0/1), prior uneventful scan (0/1), auto-discovered bounds (0/1)]
 func VerifHarness_C06() {
 	N, P, menu, cord, trig := verifShape(0), verifShape(1), verifShape(2), verifShape(3), verifShape(4)
 	w := newWorld(0)
@@ -32,7 +32,16 @@ func VerifHarness_C06() {
 	case 2:
 		o.MaxNodeAge = "1h"
 	}
-	g := w.addGroup(o, 0, maxEff, 0)
+	auto := verifShape(7) == 1 // min_nodes/max_nodes left out: the bounds are the cloud group's own, re-read every scan
+	asgMin0 := int64(0)
+	if auto {
+		o.MinNodes, o.MaxNodes = 0, 0
+		asgMin0 = minEff
+		if verifShape(6) == 1 {
+			asgMin0 = verifInt("asg.min.before", 0, int64(N)) // what the earlier scan discovered
+		}
+	}
+	g := w.addGroup(o, asgMin0, maxEff, 0)
 	classes := [][]int{{tcNone}, {tcNone, tcEsc}, {tcNone, tcEscGarbage, tcEscEmpty, tcForce}}[menu]
 	w.symNodes("", g, N, classes, cord == 1, []int{0}, trig == 2)
 	if verifShape(5) == 1 {
@@ -45,6 +54,12 @@ func VerifHarness_C06() {
 	w.build()
 	if verifShape(6) == 1 {
 		w.priorScan(g)
+	}
+	if auto {
+		w.AS.Group(o.CloudProviderGroupName).Min = minEff // the cloud group's minimum as it is now
+		if asgMin0 != minEff {
+			verifReach("C06.discovered-minimum-changed")
+		}
 	}
 	s := w.snap(g)
 	mark := len(w.J.Calls)
